@@ -229,18 +229,26 @@ def solve_one(ob, timeout_s, seed, use_fallback=True):
     unfold = spec_unfoldings(list(ob.hyps) + [ob.goal], fuel=getattr(ob, 'fuel', 1))
     nq = sum(1 for h in ob.hyps if _has_q(h))
     if ob.expect == 'valid' and nq >= 1 and not getattr(ob, 'tactic', None):
-        # phase 1: E-matching only (no model-based instantiation), as Boogie/Dafny configure z3: proofs that
-        # exist by trigger instantiation are found at once; 'unknown' here decides nothing
-        s0 = _mk_solver(ob, max(3.0, timeout_s * 0.25), seed)
-        s0.set('auto_config', False)
-        s0.set('smt.mbqi', False)
-        for h in ob.hyps:
-            s0.add(h)
-        for eq in unfold:
-            s0.add(eq)
-        s0.add(z3.Not(ob.goal))
-        if str(s0.check()) == 'unsat':
-            return Result('proved', 'z3-5.1/ematch', time.time() - t0, None, '')
+        # phase 1: restart portfolio.  Proofs of these VCs, when z3 finds them, are found in well under a
+        # second; whether it finds them is sensitive to the search order.  So: several short attempts with
+        # different seeds, alternating E-matching only (no model-based instantiation, as Boogie/Dafny
+        # configure z3) and the default configuration.  'unknown' in this phase decides nothing.
+        short = max(2.0, timeout_s * 0.05)
+        for attempt in range(6):
+            s0 = _mk_solver(ob, short, seed)
+            if attempt % 2 == 0:
+                s0.set('auto_config', False)
+                s0.set('smt.mbqi', False)
+            s0.set('smt.random_seed', attempt * 7 + 1)
+            hy = list(ob.hyps) + list(unfold)
+            if attempt >= 2:
+                import random as _r
+                _r.Random(attempt).shuffle(hy)
+            for h in hy:
+                s0.add(h)
+            s0.add(z3.Not(ob.goal))
+            if str(s0.check()) == 'unsat':
+                return Result('proved', 'z3-5.1/ematch' if attempt % 2 == 0 else 'z3-5.1/restart', time.time() - t0, None, '')
     # phase 2 (sound shortcut): prove from a relevance-selected subset of the quantified hypotheses
     if ob.expect == 'valid' and nq >= 6:
         for depth, share in ((2, 0.2),):
